@@ -162,6 +162,9 @@ Accepts(cls, entry, mode, k, adj, form, op, which) ==
     [] entry = "gate_split" ->
          IF ~Is1D(cls) THEN "no" ELSE IF k # 2 THEN "no"
          ELSE IF form = "struct" THEN (IF adj THEN "yes" ELSE "no") ELSE "maybe"
+    \* swap_sites_with_compress / swap_site_to of two sites of equal size: the SWAP gate on them
+    [] entry = "swap_sites" ->
+         IF ~Is1D(cls) \/ op # "N" THEN "no" ELSE IF k # 2 THEN "no" ELSE NeedsStruct("yes", form)
     [] entry = "gate_with_auto_swap" ->
          IF ~Is1D(cls) \/ op # "N" THEN "no" ELSE IF k # 2 THEN "no" ELSE NeedsStruct("yes", form)
     [] entry = "gate_sandwich_with_auto_swap" ->
